@@ -53,6 +53,7 @@ OPS_REQUIRED = ["sort_tree", "get_subtree", "to_subtree", "cut_tree", "redirect_
 REQUIRED = ["contract_evals_" + o for o in OPS_REQUIRED] + [
     "steps_executed", "probe_output_poison", "probe_input_poison", "roundtrip_steps",
     "identity_transform_steps", "same_tree_in_two_argument_positions", "size_sweep_cases",
+    "pipelines_starting_from_a_branch_tree",
     "steps_on_readonly_columns"]
 FLOOR = {"quick": 300, "thorough": 30000}
 SHARDS = {"quick": 8, "thorough": 16}
@@ -86,6 +87,32 @@ def poison(t):
             v[...] = POISON_F if v.dtype.kind == "f" else POISON_I
     if isinstance(t.comments, list):
         t.comments.append("rv-poison")
+
+
+def _arrays_of_extra_state(t):
+    """Arrays reachable from a tree's state beyond its columns (a BranchTree's branches)."""
+    out = []
+    br = getattr(t, "branches", None)
+    if isinstance(br, dict):
+        for lst in br.values():
+            for b in lst:
+                at = getattr(b, "attach", None)
+                nd = getattr(at, "ndata", None)
+                if isinstance(nd, dict):
+                    out.extend(v for v in nd.values() if isinstance(v, np.ndarray))
+                if isinstance(getattr(b, "idx", None), np.ndarray):
+                    out.append(b.idx)
+    return out
+
+
+def _extra_state_shared(out, x):
+    if getattr(out, "branches", None) is None or getattr(x, "branches", None) is None:
+        return False
+    if out.branches is x.branches:
+        return True
+    mine = {a.__array_interface__["data"][0] for a in _arrays_of_extra_state(x) if a.size}
+    return any(a.size and a.__array_interface__["data"][0] in mine
+               for a in _arrays_of_extra_state(out))
 
 
 def spec_of(t):
@@ -236,6 +263,13 @@ def _run_pipeline(ctx, case):
     rng = np.random.default_rng(case["pseed"])
     spec = G.spec_from_recipe(case["tree"])
     t = G.build(spec, with_tag=False, comments=["first", "  second"], frozen_ok=True)
+    if case.get("as_branch_tree"):
+        # the pipeline starts from a BranchTree instance (a Tree subclass with state of its own:
+        # the remembered branches) -- results must not share *that* state with their input either
+        bt, _ = G.as_branch_tree(t)
+        if bt is not None:
+            t = bt
+            ctx.count("pipelines_starting_from_a_branch_tree")
     max_n = 300 if ctx.quick else 3000
     for step in range(case["length"]):
         forced = case.get("ops")
@@ -271,6 +305,11 @@ def _run_pipeline(ctx, case):
             if out is x:
                 ctx.violation("result-is-input", f"step {step} {label}: returned its input object",
                               case)
+                return
+            if _extra_state_shared(out, x):
+                ctx.violation("shares-storage", f"step {step} {label}: the result shares the "
+                                                f"input's remembered branches (a {type(x).__name__}"
+                                                f" carries state beyond its columns)", case)
                 return
             for a, va in out.ndata.items():
                 for b, vb in x.ndata.items():
@@ -344,6 +383,9 @@ def run(ctx):
                                     "axis", "big"])
         case = {"tree": rc, "pseed": int(rng.integers(0, 2**31 - 1)),
                 "length": int(rng.integers(1, 9 if ctx.quick else 26))}
+        if k % 7 == 3 and rc["n"] >= 4:
+            case["as_branch_tree"] = True
+            case["length"] = min(case["length"], 2)
         ctx.case(case, nontrivial=case["length"] >= 2 and rc["n"] >= 3,
                  klass=f"{rc['shape']}")
         execute(ctx, case)
